@@ -98,6 +98,37 @@ def run_parametrised(rep, rng, n):
                                                            "datetime64[ns]", "timedelta64[ns]", "complex64"])), True))
         except Exception:  # noqa: BLE001
             continue
+    # one data type, several spellings: constructed directly (zone by name / as tzinfo), from the native dtype, from
+    # its printed name — all must be equal and equally hashed
+    for unit in units:
+        for tz in tzs[:4]:
+            case = {"engine": "pandas", "spellings": f"DateTime[{unit}, {tz}]"}
+            rep.evaluations += 1
+            rep.count("parametrised:spellings")
+            with warnings.catch_warnings():
+                warnings.simplefilter("ignore")
+                try:
+                    native = pd.DatetimeTZDtype(unit=unit, tz=tz)
+                    forms = {"DateTime(tz=name)": pe.DateTime(unit=unit, tz=tz),
+                             "DateTime(tz=tzinfo)": pe.DateTime(unit=unit, tz=native.tz),
+                             "Engine.dtype(native)": pe.Engine.dtype(native),
+                             "Engine.dtype(printed)": pe.Engine.dtype(str(native))}
+                except Exception as e:  # noqa: BLE001
+                    rep.count("parametrised:spellings:unbuildable:" + type(e).__name__)
+                    continue
+            ref_name, ref = "Engine.dtype(native)", forms["Engine.dtype(native)"]
+            for k, t in forms.items():
+                if t != ref or ref != t or hash(t) != hash(ref):
+                    rep.property_failure(case, f"{k} and {ref_name} of the same type are not equal / equally hashed "
+                                               f"({t!r} vs {ref!r})")
+                    break
+                try:
+                    back = pe.Engine.dtype(str(t))
+                except Exception as e:  # noqa: BLE001
+                    back = None
+                if back != t:
+                    rep.property_failure(case, f"{k}: its printed name {str(t)!r} does not resolve back to an equal type")
+                    break
     for eng, native, primitive in made:
         case = {"engine": eng, "native": repr(native)}
         rep.evaluations += 1
